@@ -276,6 +276,12 @@ func init() {
 				// address of a map variable: using it as *map is an invalid conversion
 				e.goPanic("invalid reinterpretation: data word of a non-addressable %v value used as pointer to it", r.t)
 			}
+			if r.addr == nil && pointerShapedAggregate(r.t) {
+				// a struct with a single pointer-shaped field (or an array of one such
+				// element) is stored directly in the data word as well: the word of a
+				// non-addressable Value is that inner pointer, not the address of a copy
+				e.goPanic("invalid reinterpretation: data word of a non-addressable %v value (pointer-shaped, stored directly) used as pointer to it", r.t)
+			}
 			switch r.t.Underlying().(type) {
 			case *types.Pointer, *types.Map, *types.Signature, *types.Chan:
 				if r.addr != nil {
@@ -671,4 +677,28 @@ func (e *Engine) hAssert(id string, c *Term) {
 		}
 	}
 	e.assume(c)
+}
+
+// pointerShaped: values of t occupy exactly one pointer word and are stored directly
+// in an interface's / reflect.Value's data word (cmd/compile isdirectiface).
+func pointerShaped(t types.Type) bool {
+	switch u := t.Underlying().(type) {
+	case *types.Pointer, *types.Map, *types.Signature, *types.Chan:
+		return true
+	case *types.Basic:
+		return u.Kind() == types.UnsafePointer
+	case *types.Struct:
+		return u.NumFields() == 1 && pointerShaped(u.Field(0).Type())
+	case *types.Array:
+		return u.Len() == 1 && pointerShaped(u.Elem())
+	}
+	return false
+}
+
+func pointerShapedAggregate(t types.Type) bool {
+	switch t.Underlying().(type) {
+	case *types.Struct, *types.Array:
+		return pointerShaped(t)
+	}
+	return false
 }
